@@ -11,6 +11,7 @@
 -/
 import Chrono.Proofs.TzLookupL
 import Chrono.Proofs.TzLookupM
+import Chrono.Proofs.TzYearlyL
 
 namespace Chrono.Props.C05
 open Chrono Chrono.M.Tz Chrono.M.TzL Chrono.Spec.Zone Chrono.Extracted.TzL Chrono.Proofs.TzL
@@ -358,6 +359,58 @@ theorem exRule_yearly : RuleYearly exRule := by
   simp only
   rw [r]
   by_cases c : leap y = true <;> by_cases c1 : leap (y + 1) = true <;> simp [c, c1] <;> omega
+
+/-! #### the year-by-year hypotheses are decidable: one Gregorian cycle (400 years = 20871 weeks) -/
+
+/-- `RuleYearly a` (a statement about EVERY integer year) holds iff it holds on the 400 years
+2000 … 2399: every rule day — also the weekday-dependent `Mm.w.d` form — falls exactly 146097 days
+later 400 years later.  The harness evaluates the same check per zone with its own calendar and
+compares it with this definition (op `tzl.yearly`). -/
+theorem ruleYearly_of_B (a : Alt) : ruleYearlyB a = true ↔ RuleYearly a :=
+  ⟨ruleYearly_of_B' a, ruleYearlyB_of a⟩
+
+/-- the same for `InsideYear`, the hypothesis of the lookup by instant (`rule_instant_ok`, `offAt_ok`) -/
+theorem insideYear_of_B (a : Alt) : insideYearB a = true ↔ InsideYear a :=
+  ⟨insideYear_of_B' a, insideYearB_of a⟩
+
+/-- `EST5EDT,M3.2.0,M11.1.0` (every current US zone) and `CET-1CEST,M3.5.0,M10.5.0/3` (every current EU zone) -/
+def usRule : Alt := ⟨⟨-18000, false, none⟩, ⟨-14400, true, none⟩, .mwd 3 2 0, 7200, .mwd 11 1 0, 7200⟩
+def euRule : Alt := ⟨⟨3600, false, none⟩, ⟨7200, true, none⟩, .mwd 3 5 0, 7200, .mwd 10 5 0, 10800⟩
+
+theorem usRule_yearly : RuleYearly usRule ∧ InsideYear usRule :=
+  ⟨(ruleYearly_of_B usRule).mp (by decide +kernel), (insideYear_of_B usRule).mp (by decide +kernel)⟩
+theorem euRule_yearly : RuleYearly euRule ∧ InsideYear euRule :=
+  ⟨(ruleYearly_of_B euRule).mp (by decide +kernel), (insideYear_of_B euRule).mp (by decide +kernel)⟩
+
+-- a rule that is NOT yearly-regular is recognised as such: start/end order flips from year to year
+example : ¬ RuleYearly ⟨⟨0, false, none⟩, ⟨3600, true, none⟩, .mwd 6 2 0, 7200, .julian1 162, 7200⟩ :=
+  fun h => absurd ((ruleYearly_of_B _).mpr h) (by decide +kernel)
+
+/-- America/New_York as it is today: the table up to the 2024 spring transition, then the US footer rule -/
+def exZoneUS : Zone :=
+  ⟨[⟨-1633280400, 1⟩, ⟨-1615140000, 0⟩, ⟨1710054000, 1⟩], [⟨-18000, false, none⟩, ⟨-14400, true, none⟩], [],
+   some (.alt usRule)⟩
+
+-- every hypothesis of the composed theorem is met by a zone with a real `Mm.w.d` footer rule; the 2024
+-- fold (November 3, 01:30 local) is read as two instants, daylight time first
+example : Classifies (offAt exZoneUS) 1730597400 (.ambiguous usRule.dst usRule.std) := by
+  have h := from_local_classifies_composed exZoneUS usRule ⟨1710054000, 1⟩ 1730597400 rfl (by decide)
+    (by unfold Sorted exZoneUS; decide) (by unfold WellSeparated; decide) (by unfold JoinSeparated; decide)
+    (by unfold ValidDay usRule; decide) (by unfold ValidDay usRule; decide) usRule_yearly.1
+    (by unfold exZoneUS NoBoundary NoBoundary NoBoundary NoBoundary; decide) (by decide) (by decide)
+    ⟨fun i => by
+        unfold typeAt exZoneUS
+        match i with
+        | 0 => decide
+        | 1 => decide
+        | (n + 2) => simp [List.getD]; decide,
+      by unfold exZoneUS; decide⟩ (by omega)
+  have e : exZoneUS.find_local_time_type_from_local 1730597400 = .ambiguous usRule.dst usRule.std := by decide
+  rw [e] at h; exact h
+
+example : exZoneUS.find_local_time_type 1720000000 = some (ltAt exZoneUS 1720000000) :=
+  offAt_ok exZoneUS 1720000000 (by unfold Sorted exZoneUS; decide) rfl
+    ⟨by unfold ValidDay usRule; decide, by unfold ValidDay usRule; decide, usRule_yearly.2⟩ (by omega)
 
 -- `exZone` (table + footer rule) meets every hypothesis; the 2024 fold is read as two instants, DST first
 example : Classifies (offAt exZone) 1729992600 (.ambiguous exRule.dst exRule.std) := by
